@@ -13,8 +13,19 @@ Unreadable-file stream: ordinary and supplemental source files that exist but ca
 meets it (Latin-1 / Windows-1252 / UTF-16 export, binary junk, a directory in the file's place, permission
 denied when not root, 0-byte and header-only files) and files that are readable but unusual (UTF-8 BOM):
 the run must complete and every other source's transactions and totals must be what they are without it.
-PARTIAL: argparse, YAML loading and printing are exercised but not modelled; legacy-CSV rule files are
-covered by the oracle only (their loop is proved under C01/C14).
+Damaged-in-one-place stream: the queried supplemental file with a few bytes that are not UTF-8 in its header, in one cell,
+in an added row or in a torn last line: every row whose own bytes are intact must still answer the rule that queries it
+(generator truth; Props/C11 readable_rows_survive / query_answered_by_intact_row for the line-by-line lenient loader).
+File names: `file:` is a literal path — names and directories with spaces, brackets, parentheses, # & ' + , % ~ $ { },
+non-ASCII (NFC and NFD), leading dots / dashes, * ? [ ], upper / lower case, nested and unnormalised paths, and SIBLINGS
+(the same name in other case; the name another one becomes when read or written as a pattern); every source, also the
+supplemental one and the extra sources of the neutrality oracle (a missing file whose name reads as a pattern stays missing).
+Legacy CSV rule files (merchant_categories.csv) are modelled like `.rules` files: the tuples the implementation loads
+(`get_all_rules`) are classified by `Pipeline.classifyLegacy` (`_is_expression_pattern` → evaluator with the supplemental
+rows, else regex oracle on the upper-cased description + `Migrate.checkAll` on exact doubles; `_resolve_dynamic_tags`;
+`Rules.legacy`), and a dedicated legacy stream writes such files against the statement lines the sources carry.
+`_is_expression_pattern` is additionally compared densely with `Pipeline.isExpressionPattern` (op `legacyshape`).
+PARTIAL: argparse, YAML loading and printing are exercised but not modelled.
 """
 import datetime
 import json
@@ -86,6 +97,153 @@ def fault_entry(r, kind, text, header=True):
     return text
 
 
+# ---- a supplemental file that is DAMAGED IN ONE PLACE ----------------------------------------------------
+# A few bytes that are not UTF-8 (a Latin-1 letter in a name, a torn multi-byte sequence, a stray 0xFF) somewhere in an otherwise
+# fine export.  `load_supplemental_sources` reads leniently (errors='replace'): the bytes become U+FFFD inside their own cell and
+# every other row is what it is in the clean file (established on the unchanged code, notes/C11_notes.md round 2).  None of the
+# byte strings contains a delimiter, a quote or a line break, so the damage cannot move a cell or a row boundary.
+BAD_BYTES = [b'\xe9', b'\x92', b'\xff', b'\x80', b'\xc3', b'\xe2\x82', b'\xed\xa0\x80', b'\xc0\xaf', b'\xf8\x88\x80\x80\x80', b'\xfe\xff',
+             b'Caf\xe9', b'M\xfcnchen \xa35', b'\xa0', b'Joe\x92s']
+PARTIAL = ['bad-header', 'bad-cell', 'bad-extra-row', 'bad-tail', 'bad-amount']
+
+
+def damage_entry(r, text, where):
+    """`text` = header line + comma separated data rows (date, item, amount) with bytes that are not UTF-8 in ONE place.
+    Returns (file entry, touched) where `touched` lists the 1-based data rows whose OWN bytes were changed; every other row is
+    byte for byte the row of the clean file.  (All draws happen for every `where`.)"""
+    lines = [l.encode('utf-8') for l in text.split('\n')]
+    assert lines[-1] == b''
+    n = len(lines) - 2                                   # data rows are lines[1..n]
+    bad = r.choice(BAD_BYTES)
+    k = r.randint(1, n)
+    at = r.randint(1, n + 1)
+    u = r.random()
+    full = r.random() < 0.5
+    touched = []
+
+    def splice(b, lo, hi):
+        i = lo + int(u * (hi - lo + 1))
+        return b[:i] + bad + b[i:]
+    if where == 'bad-header':                            # a column title with an accent, saved as ISO-8859-1
+        lines[0] = splice(lines[0], 0, len(lines[0]))
+    elif where == 'bad-cell':                            # the item text of ONE row (a column the rule does not compare)
+        c = lines[k].split(b',')
+        c[1] = splice(c[1], 0, len(c[1]))
+        lines[k] = b','.join(c)
+        touched = [k]
+    elif where == 'bad-amount':                          # the amount cell of ONE row
+        c = lines[k].split(b',')
+        c[2] = splice(c[2], 0, len(c[2]))
+        lines[k] = b','.join(c)
+        touched = [k]
+    elif where == 'bad-extra-row':                       # one more (complete) row that carries the bytes; its amount matches nothing
+        lines.insert(at, b'2025-03-09,Gi' + bad + b'ft,7.77')
+    elif where == 'bad-tail':                            # a torn last line without line end
+        lines[-1] = (b'2025-03-30,Stamp' + bad + b',0.85') if full else bad
+    return {'hex': b'\n'.join(lines).hex()}, touched
+
+
+# ---- file names as statement exports really carry them ---------------------------------------------------
+# `file:` is a LITERAL path relative to the budget directory (cmd_run / load_supplemental_sources: os.path.join + normpath +
+# os.path.exists).  Banks and browsers produce names with spaces, brackets, parentheses, '#', '&', quotes, '+', ',', '%', '~',
+# non-ASCII letters, leading dots and dashes, characters that mean something to a shell / glob / format string / YAML, upper and
+# lower case, and users sort them into sub-directories.
+NAME_DIRS = ['data', 'data', 'data', 'data/2025', 'data/2025/Q1', 'data/Bank & Co', 'data/Card [4321]', 'Statements (2025)', "data/Joe's",
+             'data/.archive', 'data/-old', 'data/Q1+Q2', 'data/100%', 'data/~backup', 'data/Übersicht', 'data/明細', 'data/a/b/c',
+             'DATA', 'Data', 'data/#1', 'data/x,y', 'exports/*new*', 'data/what?', 'data/[2025]', '', './data', 'data/.', 'data//raw',
+             'data/{a,b}', 'data/$HOME', 'data/two  spaces']
+NAME_STEMS = ['checking', 'Card [4321]', 'Chase1234_Activity20250101_20250331_20250405', 'Transactions (1)', 'activity #2', 'AT&T',
+              "Joe's card", 'a+b', 'a,b', '50% off', '~export', 'Umsätze März', '明細', '.hidden', '-dash', '--help', 'stmt *',
+              'stmt ?', '[abc]', 'x[!a]y', '[]]', '[', 'a]b[c', '[a-z]', 'file{1,2}', 'UPPER', 'MiXeD', ' leading', 'trailing ', 'two  spaces',
+              'dots..in.name', 'Export 2025-01-01 — 2025-03-31', 'café', 'café', '$HOME', '%TEMP%', '%s', '{date}', 'a;b', 'a=b',
+              'a@b', 'a!b', 'a:b', '"quoted"', '#', '*', '?', '**', 'null', 'yes', '2025', '1e3', '~']
+NAME_EXTS = ['.csv', '.csv', '.csv', '.CSV', '.Csv', '.txt', '', '.csv.txt', '.tsv', '.csv ', '.2025']
+GLOB_CHARS = set('*?[]')
+
+
+def _norm(p):
+    return os.path.normpath(p)
+
+
+def _name_free(p, taken):
+    """`p` names a file of its own: no other file at the same (normalised, case-sensitive) path, none of the two is a directory
+    of the other, and it stays inside the budget directory and out of config/"""
+    q = _norm(p)
+    if q.startswith('..') or q.startswith('/') or q == '.' or q.split('/')[0] == 'config':
+        return False
+    for t in taken:
+        t = _norm(t)
+        if t == q or t.startswith(q + '/') or q.startswith(t + '/'):
+            return False
+    return True
+
+
+def gen_file_name(r, tag, taken):
+    """a file name for one more source: 40 % the plain identifier the first version of this generator used, 20 % a SIBLING of a name
+    already taken (same letters in other case, or the name that results from reading the other one as a pattern / writing a
+    character of it as a pattern: `s1.csv` next to `s?.csv`, `s*.csv`, `s[1].csv`), else directory × stem × extension from the
+    lists above.  Every name is distinct from the others as a literal path, so each source has a file of its own."""
+    plain = f'data/{tag}.csv'
+    u = r.random()
+    d, stem, ext = r.choice(NAME_DIRS), r.choice(NAME_STEMS), r.choice(NAME_EXTS)
+    numbered = r.random() < 0.4
+    how = r.choice(['case', 'qmark', 'star', 'class', 'ext-case', 'copy'])
+    pos = r.random()
+    base = r.choice(sorted(taken)) if taken else None
+    cands = []
+    if u < 0.40:
+        cands.append(plain)
+    elif u < 0.60 and base is not None:
+        head, tail = os.path.split(base)
+        i = int(pos * len(tail)) if tail else 0
+        if how == 'case':
+            sib = tail.swapcase()
+        elif how == 'qmark':
+            sib = tail[:i] + '?' + tail[i + 1:]
+        elif how == 'star':
+            sib = tail[:i] + '*' + tail[min(len(tail), i + 1 + int(pos * 3)):]
+        elif how == 'class':
+            sib = tail[:i] + '[' + tail[i:i + 1] + ']' + tail[i + 1:]
+        elif how == 'ext-case':
+            root, e = os.path.splitext(tail)
+            sib = root + (e.upper() if e != e.upper() else e.lower())
+        else:
+            root, e = os.path.splitext(tail)
+            sib = root + ' (1)' + e
+        cands.append(os.path.join(head, sib) if head else sib)
+    name = stem + (f' {tag}' if numbered else '') + ext
+    cands.append(d + '/' + name if d else name)
+    cands.append((d + '/' if d else '') + f'{tag} ' + name)
+    cands.append(plain)
+    cands.append(f'data/{tag}-{len(taken)}.csv')
+    for c in cands:
+        if _name_free(c, taken):
+            return c
+    raise AssertionError('no free file name')
+
+
+def name_classes(p):
+    out = []
+    b = os.path.basename(p)
+    if GLOB_CHARS & set(p):
+        out.append('glob-metacharacter')
+    if ' ' in p:
+        out.append('space')
+    if any(ord(c) > 127 for c in p):
+        out.append('non-ascii')
+    if set('()#&\'+,%~$;=@!{}":') & set(p):
+        out.append('punctuation')
+    if b[:1] in '.-':
+        out.append('leading-dot-or-dash')
+    if _norm(p).count('/') >= 2 or (_norm(p).count('/') == 1 and not _norm(p).startswith('data/')):
+        out.append('nested-or-other-directory')
+    if _norm(p) != p:
+        out.append('unnormalised-path')
+    if b != b.lower():
+        out.append('upper-case')
+    return out or ['plain']
+
+
 def gen_source(r, i, year):
     eu = r.random() < 0.3
     delim = r.choice([None, None, ';', 'tab'])
@@ -145,14 +303,19 @@ def gen_source(r, i, year):
     return src, '\n'.join(lines) + '\n', expected
 
 
-def gen_budget(r):
+def gen_budget(r, focus=None):
+    """`focus='damaged-supplemental'`: the same budget stream, but the supplemental source, the rule that queries it and a file
+    damaged in one place are certain (the quick tier would otherwise see the combination in ~3 of 80 budgets)"""
     year = 2025
     n = r.choice([1, 2, 2, 3, 4])
     files, sources = {}, []
     expect = []
     states = []
+    taken = []
     for i in range(n):
         src, text, exp = gen_source(r, i, year)
+        src['file'] = gen_file_name(r, f's{i}', taken)
+        taken.append(src['file'])
         sources.append(src)
         # the file: present (with or without a UTF-8 signature) / missing / there but unreadable or hollow
         state = r.random()
@@ -169,21 +332,36 @@ def gen_budget(r):
         else:
             files[src['file']] = entry
             states.append(fk)
-    supp = r.random() < 0.4
+    supp = r.random() < 0.4 or focus == 'damaged-supplemental'
     ORDERS = 'date,item,amount\n2025-01-05,Book,15.99\n2025-01-06,Pen,100.00\n2025-02-01,Ink,2.50\n'
+    ORDER_CENTS = [1599, 10000, 250]            # the amounts of data rows 1, 2, 3
     supp_state = 'ok'
+    touched = None                              # data rows of the orders file whose own bytes are damaged (None: nothing is promised)
+    ofile = gen_file_name(r, 'orders', taken)
+    if r.random() < 0.5:
+        ofile = 'data/orders.csv'
+    fk = r.choice(FAULTS + ['missing', 'bom'])
+    entry = fault_entry(r, fk, ORDERS)
+    pk = r.choice(PARTIAL)
+    pentry, ptouched = damage_entry(r, ORDERS, pk)
+    u = r.random()
     if supp:
-        sources.insert(r.randint(0, len(sources)), {'name': 'orders', 'file': 'data/orders.csv', 'format': '{date:%Y-%m-%d},{item},{amount}',
+        taken.append(ofile)
+        sources.insert(r.randint(0, len(sources)), {'name': 'orders', 'file': ofile, 'format': '{date:%Y-%m-%d},{item},{amount}',
                                                     'columns': {'description': '{item}'}, 'supplemental': True})
-        files['data/orders.csv'] = ORDERS
-        fk = r.choice(FAULTS + ['missing', 'bom'])
-        entry = fault_entry(r, fk, ORDERS)
-        if r.random() < 0.3:
-            supp_state = fk
+        files[ofile] = ORDERS
+        touched = []
+        if u < 0.25 or focus == 'damaged-supplemental':
+            supp_state, touched = pk, ptouched
+            files[ofile] = pentry
+        elif u < 0.5:
+            supp_state, touched = fk, None
             if fk == 'missing':
-                del files['data/orders.csv']
+                del files[ofile]
             else:
-                files['data/orders.csv'] = entry
+                files[ofile] = entry
+            if fk == 'bom':
+                touched = []
     states.append('supplemental:' + supp_state if supp else 'no-supplemental')
     # pre-drawn extra source for the neutrality oracle: an ordinary source whose file contributes nothing, or a supplemental source
     # that no rule queries (any content): adding it must not move a single figure
@@ -191,29 +369,41 @@ def gen_budget(r):
     gkind = r.choice(FAULTS + (['bom', 'valid'] if gsupp else []))
     ghost = {'supplemental': gsupp, 'kind': gkind, 'pos': r.randint(0, len(sources)),
              'entry': fault_entry(r, gkind, 'Date,What,Amount\n2025-01-09,GHOST CAFE,12.00\n2025-02-10,GHOST RENT,900.00\n')}
+    # their file names: as for every source (a MISSING file whose name reads as a pattern must stay missing)
+    ghost['file'] = gen_file_name(r, 'ledger', taken)
+    ghost['missing_file'] = gen_file_name(r, 'ghost', taken + [ghost['file']])
     txn = GR.gen_txn(r)
     txn['description'] = r.choice(DESCS)
     kind = r.choice(['rules', 'rules', 'rules', 'none', 'csv'])
+    if focus == 'damaged-supplemental':
+        kind = 'rules'
     settings = {'year': year, 'data_sources': sources}
     probe = None
     if kind == 'rules':
         f = GR.gen_rules_file(r, txn)
-        if supp and r.random() < 0.7:
+        if supp and (r.random() < 0.7 or focus == 'damaged-supplemental'):
             f['rules'].insert(0, {'name': 'Ordered', 'match': 'any(r.amount == amount for r in orders)', 'category': 'Orders',
                                   'tags': ['{next((r.item for r in orders if r.amount == amount), "")}']})
             f['transforms'] = []
-            # with the orders file unreadable the rule may or may not see rows (the loader may skip the file or decode it leniently):
-            # only the ordinary sources' transactions and amounts are required then
-            probe = ('Ordered', sum(1 for e in expect if e['cents'] in (1599, 10000, 250))) if supp_state in ('ok', 'bom') else None
+            # with the orders file unreadable AS A WHOLE the rule may or may not see rows (the loader may skip the file or decode it
+            # leniently): only the ordinary sources' transactions and amounts are required then.  With the file damaged in ONE place
+            # every row whose own bytes are intact must still be there for the rule: at least the transactions that equal an intact
+            # row's amount are `Ordered`, at most those that equal any row's amount (a damaged row may be kept or dropped).
+            if touched is not None:
+                intact = [c for k, c in enumerate(ORDER_CENTS, 1) if k not in touched]
+                probe = ('Ordered', sum(1 for e in expect if e['cents'] in intact), sum(1 for e in expect if e['cents'] in ORDER_CENTS))
         elif r.random() < 0.4:
             f['transforms'] = [('field.description', 'regex_replace(field.description, "^UBER\\\\s+", "")')]
             f['rules'].insert(0, {'name': 'Probe', 'match': 'startswith("EATS")', 'category': 'Probe'})
-            probe = ('Probe', sum(1 for e in expect if e['description'] == 'UBER EATS 123'))
+            want = sum(1 for e in expect if e['description'] == 'UBER EATS 123')
+            probe = ('Probe', want, want)
         files['config/merchants.rules'] = GR.render_rules(f)
         settings['merchants_file'] = 'config/merchants.rules'
     elif kind == 'csv':
         files['config/merchant_categories.csv'] = GR.render_csv_rules(GR.gen_csv_rules(r, txn))
     mode = r.choice(['first_match', 'first_match', 'most_specific'])
+    if focus == 'damaged-supplemental':
+        mode = 'first_match'
     if mode != 'first_match' or r.random() < 0.2:
         settings['rule_mode'] = mode
     if r.random() < 0.3:
@@ -223,6 +413,115 @@ def gen_budget(r):
     files['config/settings.yaml'] = yaml.safe_dump(settings, sort_keys=False)
     return {'files': files, 'kind': kind, 'states': states, 'ghost': ghost, 'expect': {'count': len(expect), 'sum_cents': sum(e['cents'] for e in expect),
                                                        'probe': probe if mode == 'first_match' else None}}
+
+
+# ---- legacy stream: budgets whose rules are a merchant_categories.csv written to meet the statement lines the sources carry -----------
+LEGACY_PLAIN = ['UBER', 'uber', 'Trader Joes', 'NETFLIX\\.COM', '^AMAZON', 'COSTCO WHSE #\\d+', 'STARBUCKS.*SEATTLE', 'LYFT(?!.*ZZZ)', 'TARGET \\d\\d$',
+                'SHELL|ACME', 'TRANSFER', 'S', '', '(?-i:uber)', '(?-i:UBER)', '(?-i:Target)']
+LEGACY_MODS = ['[amount>15.99]', '[amount>=15.99]', '[amount=15.99]', '[amount=100]', '[amount:2.5-100]', '[amount<0]', '[amount<=-20.5]',
+               '[amount>100]', '[amount>42]', '[month=1]', '[month=12]', '[date:2025-01-01..2025-01-31]', '[date=2025-01-15]', '[date:last30days]',
+               '[date:last9999days]', '[amount>1][month=1]', '[amount:0-500][date:2025-01-01..2025-06-30]', '[amount>abc]', '[month=13]']
+LEGACY_EXPR = ['amount > 100', 'amount<0', 'month == 12', 'contains("UBER") and amount > 10', 'startswith("NETFLIX")', 'source == "Src0"',
+               'field.type == "ACH"', 'description == "SHELL OIL"', '(amount > 400)', 'regex("UBER|LYFT")', 'day>14', 'year==2025',
+               'contains("JOES") or contains("LYFT")', 'exists(field.type) and amount > 0', 'amount > "x"', 'contains(']
+LEGACY_FALLBACK = ['(UBER|LYFT)', 'TRADER and JOES', 'LYFT or UBER', '(SHELL)', 'TRANSFER and SAVINGS', '(COSTCO)[amount>20]', 'field.UBER', 'amount>.*']
+LEGACY_BAD = ['UBER(', '[A-', '*COSTCO', 'NETFLIX(?P<x']
+LEGACY_SUPP = ['(any(r.amount == amount for r in orders))', 'any(r.item == "Book" for r in orders) and amount > 50', '(len(orders) == 3)']
+LEGACY_TAGS = ['', '', 'business', 'business|Travel', 'Business|business', '{field.type}', '{source}', '{description}', '{amount > 100}', '{month}',
+               ' spaced | x ', '{}', '{orders}', '{""}', '{ field.type }|fixed', '{extract(description, "(\\d+)")}', 'income', 'transfer', '{1/0}',
+               '{len(orders)}', '{next((r.item for r in orders if r.amount == amount), "none")}', '{" Padded "}', '{"  "}', '{0}', '{0.0}']
+
+
+def gen_legacy_budget(r):
+    """a budget of the ordinary stream whose rules are replaced by a legacy CSV file: plain regular expressions (case, anchors,
+    look-ahead, alternation, the empty pattern), every modifier form with thresholds / dates ON the values the sources carry,
+    patterns that are expressions (evaluated, some over the supplemental rows), patterns that only look like expressions (regex
+    after all), patterns `re` rejects, static / dynamic / blank / duplicate tags, tag-only rows, repeated Pattern cells"""
+    import yaml
+    b = gen_budget(r)
+    st = yaml.safe_load(b['files']['config/settings.yaml'])
+    st.pop('merchants_file', None)
+    b['files'].pop('config/merchants.rules', None)
+    supp = any(s.get('supplemental') for s in st['data_sources'])
+    rows = []
+    for i in range(r.choice([2, 3, 4, 5, 7])):
+        k = r.random()
+        if k < 0.45:
+            pat = r.choice(LEGACY_PLAIN) + (r.choice(LEGACY_MODS) if r.random() < 0.6 else '')
+        elif k < 0.7:
+            pat = r.choice(LEGACY_EXPR)
+        elif k < 0.85:
+            pat = r.choice(LEGACY_FALLBACK)
+        elif k < 0.92:
+            pat = r.choice(LEGACY_BAD)
+        else:
+            pat = r.choice(LEGACY_SUPP if supp else LEGACY_EXPR)
+        if rows and r.random() < 0.1:
+            pat = r.choice(rows)[0]
+        tags = r.choice(LEGACY_TAGS)
+        tag_only = r.random() < 0.2
+        if tag_only and not tags:
+            tags = 'misc'
+        cat = r.choice(GR.CATS)
+        rows.append((pat, f'L{i}', '' if tag_only else cat[0], '' if tag_only else cat[1], tags))
+    b['files']['config/merchant_categories.csv'] = GR.render_csv_rules(rows)
+    b['files']['config/settings.yaml'] = yaml.safe_dump(st, sort_keys=False)
+    b['kind'] = 'csv'
+    b['stream'] = 'legacy'
+    b['expect'] = dict(b['expect'], probe=None)
+    return b
+
+
+def gen_transform_budget(r):
+    """a `.rules` budget WITH a supplemental source whose field transform names that source: `apply_transforms` evaluates transforms
+    on the transaction alone (no supplemental rows), so the transform raises, is skipped, and the description stays what it was"""
+    import yaml
+    b = gen_budget(r)
+    st = yaml.safe_load(b['files']['config/settings.yaml'])
+    b['files'].pop('config/merchant_categories.csv', None)
+    if not any(s_.get('supplemental') for s_ in st['data_sources']):
+        st['data_sources'].insert(r.randint(0, len(st['data_sources'])),
+                                  {'name': 'orders', 'file': 'data/orders.csv', 'format': '{date:%Y-%m-%d},{item},{amount}',
+                                   'columns': {'description': '{item}'}, 'supplemental': True})
+        b['files']['data/orders.csv'] = 'date,item,amount\n2025-01-05,Book,15.99\n2025-01-06,Pen,100.00\n2025-02-01,Ink,2.50\n'
+    tr = r.choice(['len(orders)', 'regex_replace(field.description, "^UBER", next((r.item for r in orders), "none"))',
+                   'next((r.item for r in orders if r.amount == amount), field.description)'])
+    rules = [{'name': 'SeesOrders', 'match': r.choice(['startswith("3")', 'contains("Book") or contains("Pen") or startswith("3")']), 'category': 'Leak'},
+             {'name': 'Uber', 'match': 'startswith("UBER")', 'category': 'Transport', 'tags': ['{len(orders)}']},
+             {'name': 'Ordered', 'match': 'any(r.amount == amount for r in orders)', 'category': 'Orders'}]
+    r.shuffle(rules)
+    b['files']['config/merchants.rules'] = GR.render_rules({'variables': {}, 'transforms': [('field.description', tr)], 'rules': rules})
+    st['merchants_file'] = 'config/merchants.rules'
+    b['files']['config/settings.yaml'] = yaml.safe_dump(st, sort_keys=False)
+    b['kind'] = 'rules'
+    b['stream'] = 'transform-names-supplemental'
+    b['expect'] = dict(b['expect'], probe=None)
+    return b
+
+
+def shape_patterns(r, quick):
+    """Pattern cells for `_is_expression_pattern`: every keyword of its two regular expressions and near misses × what may stand
+    between the keyword and the next character (nothing, ASCII / Unicode white space, things that are not white space) × next
+    characters; the substring and prefix clauses; the cells of the legacy stream"""
+    words = ['contains', 'normalized', 'anyof', 'startswith', 'fuzzy', 'regex', 'extract', 'split', 'substring', 'trim', 'exists',
+             'amount', 'month', 'year', 'day', 'source', 'description',
+             'contain', 'containsx', 'Contains', 'amounts', 'AMOUNT', 'days', 'date', 'field', 'weekday', 'sub', 'trimmed', '']
+    gaps = ['', ' ', '  ', '\t', '\n', '\r\n', '\x0b', '\x1c', '\x1f', '\x85', '\xa0', '\u1680', '\u2003', '\u2028', '\u202f', '\u3000',
+            '\u200b', '\ufeff', '\x00', '_', '.']
+    nexts = ['(', '<', '>', '=', '!', '<=', '!=', '', 'a', '[', ')', '~', ' (']
+    out = [w + g + n + tail for w in words for g in gaps for n in nexts for tail in ('', 'x")')]
+    out += [lead + w + '(' for w in words[:17] for lead in (' ', '\n', '^', 'x')]
+    out += ['field.', 'field.x', 'field', 'fields.x', ' field.x', 'Field.x', 'a and b', 'a  and b', 'aand b', 'a and', ' and ', 'and', 'a\tand\tb',
+            'a or b', ' or ', 'or', 'a or', 'a\nor b', 'A AND B', 'A OR B', '(', '(x', ' (x', 'x(', ')', '',
+            # a parenthesised literal or name is a regex group, anything more is an expression (D1b)
+            '(123)', '(1)', '(source)', '("x")', "('x')", '(true)', '(None)', '(-1)', '(1.5)', '( 1 )', '(x)', '(UBER)', '(amount)', '((1))',
+            '(1)x', '(a.b)', '(1,)', '(1j)', '(...)', '(b"x")', '(f"x")', '(1)(2)', '(UBER|LYFT)', '(amount > 5)', '(not x)', '(x)\n', '(x) ',
+            '(123)\t', '(1 )', '(0x1f)', '(1_000)', '(١)', '(é)', '(x y)', '(x)y', '()', '(())', '(x:=1)', '(yield)', '(await x)', '(*x)']
+    out += LEGACY_PLAIN + LEGACY_EXPR + LEGACY_FALLBACK + LEGACY_BAD + LEGACY_SUPP
+    alphabet = ['contains', 'amount', 'day', 'field.', ' and ', ' or ', '(', ' ', '\t', '\xa0', '<', '=', '!', 'x', 'and', 'or', '\n']
+    for _ in range(300 if quick else 20000):
+        out.append(''.join(r.choice(alphabet) for _ in range(r.randint(1, 5))))
+    return out
 
 
 def write_budget(d, budget):
@@ -317,10 +616,57 @@ def model_input(budget):
             rb.update(has_engine=True, variables=ec['variables'], rules=ec['rules'],
                       transforms=[[fp[6:], exprs.parse_or_none(e)] for fp, e in eng.transforms])
         elif mf:
-            return None            # legacy CSV rules: oracle only
+            rb['legacy'] = legacy_book(mf, rb['mode'])     # merchant_categories.csv: the tuple loop (Pipeline.classifyLegacy)
+            if rb['legacy'] is None:
+                return None
         return {'sources': sources, 'rulebook': rb, 'supp': [[k, exprs.val_json(v, True)] for k, v in supp.items()]}
     finally:
         shutil.rmtree(d, ignore_errors=True)
+
+
+def legacy_book(path, mode):
+    """The tuples `cmd_run` gets for a legacy CSV rule file (`get_all_rules`, the implementation's own loader and modifier
+    parser), as the `legacy` part of the model's rulebook: pattern text + its reading by `parse_expression` (None: it raises
+    ExpressionError), modifier thresholds as IEEE bit patterns (the model takes their exact value), tags as `_resolve_dynamic_tags`
+    reads them, and `date.today() - n days` for the relative-date modifiers present.  None: a tuple the model does not cover
+    (short CSV row → a None cell; a threshold that is not finite)."""
+    import math
+    from tally import merchant_utils as MU
+    rules = MU.get_all_rules(path, match_mode=mode)
+    MU.clear_engine_cache()
+    out, cutoffs = [], []
+    today = datetime.date.today()
+    for i, (pattern, merchant, category, subcategory, parsed, source, tags) in enumerate(rules):
+        if any(x is None for x in (pattern, merchant, category, subcategory)):
+            return None
+        am, dt = [], []
+        for c in parsed.amount_conditions:
+            vals = [x for x in (c.value, c.min_value, c.max_value) if x is not None]
+            if not all(math.isfinite(x) for x in vals):
+                return None
+            if c.operator == ':':
+                am.append({'op': ':', 'lo': common.float_bits(c.min_value), 'hi': common.float_bits(c.max_value)})
+            else:
+                am.append({'op': c.operator, 'v': common.float_bits(c.value)})
+        for c in parsed.date_conditions:
+            if c.operator == '=':
+                dt.append({'op': '=', 'd': [c.value.year, c.value.month, c.value.day]})
+            elif c.operator == ':':
+                dt.append({'op': ':', 'a': [c.start_date.year, c.start_date.month, c.start_date.day],
+                           'b': [c.end_date.year, c.end_date.month, c.end_date.day]})
+            elif c.operator == 'month':
+                dt.append({'op': 'month', 'm': c.month})
+            else:
+                dt.append({'op': 'relative', 'n': c.relative_days})
+                try:
+                    co = today - datetime.timedelta(days=c.relative_days)
+                    cutoffs.append([c.relative_days, [co.year, co.month, co.day]])
+                except OverflowError:
+                    pass              # no cutoff shipped: the model declines (`unmodelled`)
+        out.append({'idx': i, 'pattern': pattern, 'merchant': merchant, 'category': category, 'subcategory': subcategory,
+                    'source': source, 'pattern_ast': exprs.parse_or_none(pattern), 'amount': am, 'date': dt,
+                    'tag_specs': [exprs.tag_spec(t) for t in tags]})
+    return {'rules': out, 'cutoffs': cutoffs}
 
 
 def fill_csv_oracles(cases):
@@ -445,10 +791,14 @@ def spec_oracle(budget, whole):
         fails.append({'class': 'amounts-not-read-with-the-source-settings', 'budget': budget, 'observed_sum': j['summary']['total_spending'],
                       'required_sum': exp['sum_cents'] / 100})
     elif exp.get('probe'):
-        name, want = exp['probe']
+        name, lo = exp['probe'][0], exp['probe'][1]
+        hi = exp['probe'][2] if len(exp['probe']) > 2 else lo
         got = sum(m['count'] for m in j['merchants'] if m['name'] == name)
-        if got != want:
-            fails.append({'class': 'rule-setting-not-honoured:' + name, 'budget': budget, 'observed': got, 'required': want})
+        if not lo <= got <= hi:
+            damaged = [x for x in budget.get('states', []) if x.startswith('supplemental:bad-')]
+            fails.append({'class': ('readable-rows-of-a-damaged-supplemental-file-lost:' if damaged and got < lo else 'rule-setting-not-honoured:') + name,
+                          'budget': budget, 'observed': got, 'required': lo if lo == hi else {'at_least': lo, 'at_most': hi},
+                          'supplemental_file': damaged[0][13:] if damaged else 'as configured'})
     return fails
 
 
@@ -471,13 +821,14 @@ def neutral_oracle(r, budget, whole):
         return dict(budget, files=files, expect=None, ghost=None)
 
     fmt = '{date:%Y-%m-%d},{description},{amount}'
-    b2 = variant({'name': 'Ghost', 'file': 'data/ghost.csv', 'format': fmt}, None, len(st['data_sources']))
+    g = budget.get('ghost') or {}
+    b2 = variant({'name': 'Ghost', 'file': g.get('missing_file', 'data/ghost.csv'), 'format': fmt}, None, len(st['data_sources']))
     other = run_up(b2)
     if impl_view(other) != impl_view(whole):
-        fails.append({'class': 'missing-source-not-neutral', 'budget': budget, 'with_missing_source': impl_view(other), 'without': impl_view(whole)})
-    g = budget.get('ghost')
+        fails.append({'class': 'missing-source-not-neutral', 'budget': budget, 'missing_file': g.get('missing_file', 'data/ghost.csv'),
+                      'with_missing_source': other if 'json' not in other else impl_view(other), 'without': impl_view(whole)})
     if g:
-        src = {'name': 'Ledger', 'file': 'data/ledger.csv', 'format': fmt}
+        src = {'name': 'Ledger', 'file': g.get('file', 'data/ledger.csv'), 'format': fmt}
         if g['supplemental']:
             src['supplemental'] = True
         b3 = variant(src, g['entry'], g['pos'])
@@ -499,7 +850,9 @@ def run(ctx):
         ce = json.loads(common.read(ctx.replay)).get('counterexample', {})
         budgets = [ce['budget']] if 'budget' in ce else []
     else:
-        budgets = [gen_budget(r) for _ in range(n)]
+        budgets = [gen_budget(r, focus='damaged-supplemental' if i % 10 == 7 else None) for i in range(n)]
+        budgets += [gen_legacy_budget(r) for _ in range(30 if ctx.quick else 800)]     # drawn AFTER the ordinary stream: that one is unchanged
+        budgets += [gen_transform_budget(r) for _ in range(6 if ctx.quick else 100)]
     with ThreadPoolExecutor(max_workers=16) as ex:
         impls = list(ex.map(run_up, budgets))
     prop_fail, corr_fail = [], []
@@ -513,6 +866,7 @@ def run(ctx):
         if mi is not None:
             mcases.append(mi); midx.append(i)
     unmodelled = 0
+    modelled_kinds = {}
     if mcases:
         fill_csv_oracles(mcases)
         for c in mcases:
@@ -523,11 +877,30 @@ def run(ctx):
             if o.get('err') == 'unmodelled':
                 unmodelled += 1
                 continue
+            k = budgets[i].get('kind', '?')
+            mk = modelled_kinds.setdefault(k, {'budgets': 0, 'transactions': 0, 'categorised': 0, 'tagged': 0})
+            mk['budgets'] += 1
+            for t in o.get('txns', []):
+                mk['transactions'] += 1
+                mk['categorised'] += t['category'] != 'Unknown'
+                mk['tagged'] += bool(t['tags'])
             mv, iv = model_view(o), impl_view(impls[i])
             if not close(mv, iv):
                 diff = [k for k in set(mv) | set(iv) if not close(mv.get(k), iv.get(k))]
                 corr_fail.append({'differs_in': diff, 'model': {k: mv.get(k) for k in diff}, 'implementation': {k: iv.get(k) for k in diff},
                                   'budget': budgets[i]})
+    # `_is_expression_pattern` (which arm of the tuple test a Pattern cell takes) vs Pipeline.isExpressionPattern, densely
+    from tally import merchant_utils as MU
+    pats = [] if ctx.replay else shape_patterns(r, ctx.quick)
+    shape_fail = []
+    if pats:
+        got = common.Driver().batch([{'op': 'legacyshape', 'patterns': [{'p': p, 'ast': exprs.parse_or_none(p)} for p in pats]}])[0].get('is_expr', [])
+        want = [bool(MU._is_expression_pattern(p)) for p in pats]
+        shape_fail = [{'pattern': p, 'model': g, 'implementation': w} for p, g, w in zip(pats, got, want) if g != w]
+        if len(got) != len(want):
+            shape_fail.append({'model_answers': len(got), 'patterns': len(want)})
+    ctx.obligation('correspondence:_is_expression_pattern vs Pipeline.isExpressionPattern', 'correspondence', not shape_fail,
+                   cases=len(pats), error=json.dumps(shape_fail[0])[:600] if shape_fail else None)
     ctx.obligation('correspondence:python -m tally up (fresh process) vs the composed Lean pipeline', 'correspondence', not corr_fail,
                    cases=len(mcases) - unmodelled, error=json.dumps(corr_fail[0], default=str)[:2500] if corr_fail else None)
     nor = 0
@@ -546,19 +919,52 @@ def run(ctx):
     ctx.cov['rule'] = ('generated budget directories: 1–4 sources with independent format strings (column order, skip columns, custom capture + '
                        'description template), delimiter (comma / ; / tab), header flag, decimal convention, sign mode, malformed rows, missing files, an '
                        'optional supplemental source queried by a rule, .rules / legacy CSV / no rules, both rule modes, optional views; each run '
-                       'through `python -m tally up --format json -v -q` in a fresh process and through the composed Lean model. '
+                       'through `python -m tally up --format json -v -q` in a fresh process and through the composed Lean model (all three rule kinds). '
+                       'Legacy stream (drawn after the ordinary one): the rules are a merchant_categories.csv of 2–7 tuples written against the statement '
+                       'lines — plain / anchored / look-ahead / case-sensitive-group / empty regular expressions, every [amount…] / [date…] / [month…] form with '
+                       'thresholds and dates ON the values the sources carry (incl. relative dates and modifiers that do not parse), Pattern cells that ARE '
+                       'expressions (over amount, date parts, source, captured columns, the supplemental rows), cells that only look like expressions, cells `re` '
+                       'rejects, static / dynamic / blank / duplicate / falsy / padded tags, tag-only tuples, repeated cells. Transform stream: a .rules '
+                       'budget whose field transform names the supplemental source (must be skipped). '
                        'Unreadable-file stream: an ordinary source file (12 %) or the queried supplemental file (30 %) is replaced by what a user '
                        'ends up with — Latin-1 / Windows-1252 / UTF-16 bytes, binary junk (zip / pdf magic + NULs + invalid UTF-8), a directory, a '
                        'mode-000 file (only when not root; a directory otherwise), a 0-byte or header-only file — or carries a UTF-8 BOM (15 % of '
                        'the files with a header line); such a source must contribute nothing and the run must complete with every other source\'s '
                        'transactions and amounts (generator truth + locality); for every second budget one more run adds a pre-drawn extra source '
                        '(ordinary with an unreadable / hollow file, or supplemental and unqueried with any of those or a readable file) at a random '
-                       'position and requires an identical report. Non-trivial = ≥ 2 readable data files and ≥ 2 merchants in the report')
+                       'position and requires an identical report. Damaged-in-one-place stream: the supplemental file queried by a rule '
+                       '(25 % of the supplemental files, and every 10th budget has supplemental source + querying rule + damage for certain) has '
+                       'bytes that are not UTF-8 (Latin-1 / cp1252 letters, torn or overlong sequences, surrogates, 0xFF) in the header, in one '
+                       'item cell, in one amount cell, in one added row or in a torn last line; required: the transactions equal to the amount of a '
+                       'row whose own bytes are intact are classified by the querying rule (lower bound), at most those equal to any row (counts in '
+                       'coverage.damaged_supplemental_file_queried_by_a_rule). File names: 60 % of all source files (ordinary, supplemental, the '
+                       'extra and the missing source of the neutrality runs) are not plain identifiers: directory × stem × extension from what '
+                       'exports carry (spaces, [ ] ( ) # & \' + , % ~ $ { } ; = @ ! : ", non-ASCII NFC / NFD, leading dot / dash, * ? [..], '
+                       'case, nested / other / unnormalised directories, YAML-looking names) or a sibling of a name already used (other case; one '
+                       'character as ?, a span as *, a character as [c]; " (1)" copy), all distinct as literal paths with different contents '
+                       '(counts by class in coverage.source_file_names). Non-trivial = ≥ 2 readable data files and ≥ 2 merchants in the report')
     fs = {}
     for b in budgets:
         for x in b.get('states', []):
             fs[x] = fs.get(x, 0) + 1
     ctx.notes['source_file_states'] = dict(sorted(fs.items()))
+    import yaml
+    nc, nfiles, dprobe = {}, 0, {'budgets': 0, 'transactions_required_to_match_an_intact_row': 0}
+    for b in budgets:
+        try:
+            srcs = yaml.safe_load(b['files']['config/settings.yaml'])['data_sources']
+        except Exception:
+            continue
+        for sdef in srcs:
+            nfiles += 1
+            for c in name_classes(sdef['file']):
+                nc[c] = nc.get(c, 0) + 1
+        pr = (b.get('expect') or {}).get('probe')
+        if pr and pr[0] == 'Ordered' and any(x.startswith('supplemental:bad-') for x in b.get('states', [])):
+            dprobe['budgets'] += 1
+            dprobe['transactions_required_to_match_an_intact_row'] += pr[1]
+    ctx.notes['source_file_names'] = dict(sorted(nc.items()), files=nfiles)
+    ctx.notes['damaged_supplemental_file_queried_by_a_rule'] = dprobe
     gs = {}
     for i in sel:
         g = budgets[i].get('ghost')
@@ -568,6 +974,8 @@ def run(ctx):
     ctx.notes['extra_source_neutrality_runs'] = dict(sorted(gs.items()))
     ctx.notes['permission_denied_testable'] = os.geteuid() != 0
     ctx.notes['budgets_by_rules_kind'] = {k: sum(1 for b in budgets if b.get('kind') == k) for k in ('rules', 'csv', 'none')}
+    ctx.notes['budgets_by_stream'] = {k: sum(1 for b in budgets if b.get('stream', 'ordinary') == k) for k in ('ordinary', 'legacy', 'transform-names-supplemental')}
+    ctx.notes['modelled_by_rules_kind'] = modelled_kinds
     ctx.notes['unmodelled_skipped'] = unmodelled
     ctx.notes['reports_produced'] = sum(1 for im in impls if 'json' in im)
     for b in budgets[:2]:
@@ -575,8 +983,8 @@ def run(ctx):
 
     def search():
         out = []
-        for _ in range(150):
-            b = gen_budget(r)
+        for i in range(150):
+            b = gen_legacy_budget(r) if i % 3 == 2 else gen_budget(r, focus='damaged-supplemental' if i % 5 == 2 else None)
             w = run_up(b)
             out.extend(spec_oracle(b, w) + locality_oracle(b, w) + neutral_oracle(r, b, w))
             if out:
@@ -586,9 +994,11 @@ def run(ctx):
     common.conclude(ctx, prop_fail, search=search,
                     required='the report contains exactly the transactions of all non-supplemental sources, each read with its own settings and '
                              'classified by the configured rules; changing one source or setting changes only its share; a missing or unreadable source '
-                             '(ordinary or supplemental) leaves the others intact and does not stop the run')
+                             '(ordinary or supplemental) leaves the others intact and does not stop the run; `file:` names exactly one file, '
+                             'literally; the readable rows of a supplemental file are available to the rules whatever another row contains')
     return ctx.finish(extra_trusted=[
         'PARTIAL: argparse, YAML loading, path resolution and JSON printing are exercised end to end but not modelled',
         'tokenisation (csv.reader / regex) is taken from the implementation, as in C05',
-        'legacy-CSV rule budgets: implementation-only oracle (their loop is proved under C01/C14); money figures compared to the cent',
+        'legacy-CSV rule budgets: the file is loaded by the implementation (csv.DictReader + parse_pattern_with_modifiers, as C14), the tuples are '
+        'classified by the model (Pipeline.classifyLegacy); float rounding of `amount - v` in [amount=v] is modelled away (as C14); money figures to the cent',
         'the component models (Csv, Expr, Engine, Rules, Totals) and their own ties (C05, C04/C08, C01/C02/C09, C06)'])
